@@ -3,12 +3,11 @@
      cache.h       canon_mode, ce_permissions
      fsck.c        fsck_tree, verify_ordered with the d/f name stack
      utf8.c        pick_one_utf8_char, next_hfs_char, is_hfs_dot_generic
-     path.c        is_ntfs_dotgit
+     path.c        is_ntfs_dotgit, is_ntfs_dot_generic (is_ntfs_dotgitmodules)
    Only the messages `git fsck --strict` reports as ERRORS are kept
    (badFilemode and the gitattributes/gitignore/mailmap symlink messages are
-   INFO in 2.39 and never fail a check).  is_ntfs_dot_generic (the .gitmodules
-   NTFS variants) is shared with the model: go-git's IsNTFSDot is a line-by-line
-   port and has no independent transcription here.
+   INFO in 2.39 and never fail a check).  Nothing of go-git's detectors is
+   reused: only byte-string helpers and the needle constants of the model.
    Validated against /usr/bin/git (ls-tree, fsck --strict) on every run. *)
 From Coq Require Import List NArith ZArith Bool String.
 From GoGit Require Import Base.Out Model.TreeObj.
@@ -89,44 +88,87 @@ Definition git_ls_tree (hsz : nat) (b : bytes) : gerr + list tentry :=
   end.
 
 (* ------------------------------------------------------------------ utf8.c *)
-Inductive uchar := UEnd | UInvalid | UAscii (c : N) | UIgnored | UOther.
+(* git's tolower on a byte it knows to be ASCII / strncasecmp in the C locale:
+   only 'A'..'Z' change *)
+Definition c_tolower (c : N) : N := if (65 <=? c) && (c <=? 90) then c + 32 else c.
+
+(* pick_one_utf8_char on NUL-terminated text ([] = the terminating NUL): the
+   code point and the bytes consumed, or `invalid` (the cursor is set to NULL).  Shifts
+   and ors of disjoint bit fields are written as products and sums. *)
+Inductive upick := PEnd | PInvalid | PChar (cp : N) (n : nat).
 
 Definition cont (c : N) : bool := N.land c 192 =? 128.
 
-(* pick_one_utf8_char on NUL-terminated text, classified for next_hfs_char:
-   (class, bytes consumed) *)
-Definition pick_utf8 (s : bytes) : uchar * nat :=
+Definition pick_cp (s : bytes) : upick :=
   match s with
-  | [] => (UEnd, O)
+  | [] => PEnd
   | a :: r =>
-    if a <? 128 then (UAscii a, 1%nat)
+    if a <? 128 then PChar a 1
     else if N.land a 224 =? 192 then
       match r with
-      | b :: _ => if negb (cont b) || (N.land a 254 =? 192) then (UInvalid, O) else (UOther, 2%nat)
-      | [] => (UInvalid, O)
+      | b :: _ => if negb (cont b) || (N.land a 254 =? 192) then PInvalid
+                  else PChar (N.land a 31 * 64 + N.land b 63) 2
+      | [] => PInvalid
       end
     else if N.land a 240 =? 224 then
       match r with
       | b :: c :: _ =>
         if negb (cont b) || negb (cont c) ||
-           ((a =? 224) && (N.land b 224 =? 128)) ||
-           ((a =? 237) && (N.land b 224 =? 160)) ||
-           ((a =? 239) && (b =? 191) && (N.land c 254 =? 190))
-        then (UInvalid, O)
-        else if is_ign a b c then (UIgnored, 3%nat) else (UOther, 3%nat)
-      | _ => (UInvalid, O)
+           ((a =? 224) && (N.land b 224 =? 128)) ||            (* overlong *)
+           ((a =? 237) && (N.land b 224 =? 160)) ||            (* surrogate *)
+           ((a =? 239) && (b =? 191) && (N.land c 254 =? 190)) (* U+FFFE, U+FFFF *)
+        then PInvalid
+        else PChar (N.land a 15 * 4096 + N.land b 63 * 64 + N.land c 63) 3
+      | _ => PInvalid
       end
     else if N.land a 248 =? 240 then
       match r with
       | b :: c :: d :: _ =>
         if negb (cont b) || negb (cont c) || negb (cont d) ||
-           ((a =? 240) && (N.land b 240 =? 128)) ||
-           ((a =? 244) && (143 <? b)) || (244 <? a)
-        then (UInvalid, O) else (UOther, 4%nat)
-      | _ => (UInvalid, O)
+           ((a =? 240) && (N.land b 240 =? 128)) ||            (* overlong *)
+           ((a =? 244) && (143 <? b)) || (244 <? a)            (* > U+10FFFF *)
+        then PInvalid
+        else PChar (N.land a 7 * 262144 + N.land b 63 * 4096 + N.land c 63 * 64 + N.land d 63) 4
+      | _ => PInvalid
       end
-    else (UInvalid, O)
+    else PInvalid
   end.
+
+(* next_hfs_char: "these code points are ignored completely" *)
+Definition hfs_ignored_cp (cp : N) : bool :=
+  (cp =? 8204) || (cp =? 8205) || (cp =? 8206) || (cp =? 8207) ||                    (* U+200C..U+200F *)
+  (cp =? 8234) || (cp =? 8235) || (cp =? 8236) || (cp =? 8237) || (cp =? 8238) ||    (* U+202A..U+202E *)
+  (cp =? 8298) || (cp =? 8299) || (cp =? 8300) || (cp =? 8301) || (cp =? 8302) || (cp =? 8303) ||  (* U+206A..U+206F *)
+  (cp =? 65279).                                                                     (* U+FEFF *)
+
+(* the picked character as is_hfs_dot_generic looks at it *)
+Inductive uchar := UEnd | UInvalid | UAscii (c : N) | UIgnored | UOther.
+
+Definition pick_utf8 (s : bytes) : uchar * nat :=
+  match pick_cp s with
+  | PEnd => (UEnd, O)
+  | PInvalid => (UInvalid, O)
+  | PChar cp n => if hfs_ignored_cp cp then (UIgnored, n) else if cp <? 128 then (UAscii cp, n) else (UOther, n)
+  end.
+
+(* well-formed UTF-8 in git's sense: pick_one_utf8_char, iterated over the
+   string, never reports an invalid sequence (it rejects stray and missing
+   continuation bytes, overlong forms, surrogates, code points above U+10FFFF
+   and the non-characters U+FFFE / U+FFFF) *)
+Fixpoint wf_utf8_go (fuel : nat) (s : bytes) : bool :=
+  match fuel with
+  | O => false
+  | S f =>
+    match pick_cp s with
+    | PEnd => true
+    | PInvalid => false
+    | PChar _ n => wf_utf8_go f (skipn n s)
+    end
+  end.
+Definition wf_utf8 (s : bytes) : bool := wf_utf8_go (S (List.length s)) s.
+
+(* the strings are byte strings *)
+Definition is_bytes (s : bytes) : bool := forallb (fun c => c <? 256) s.
 
 (* next_hfs_char: skip ignored code points *)
 Fixpoint next_hfs (fuel : nat) (s : bytes) : uchar * bytes :=
@@ -151,16 +193,27 @@ Fixpoint hfs_needle_git (s : bytes) (needle : bytes) : bool :=
     end
   | e :: ns =>
     match next_hfs (S (List.length s)) s with
-    | (UAscii c, r) => (lower c =? e) && hfs_needle_git r ns
+    | (UAscii c, r) => (c_tolower c =? e) && hfs_needle_git r ns
     | _ => false
     end
   end.
 Definition git_is_hfs_dot (name needle : bytes) : bool :=
   match next_hfs (S (List.length name)) name with
-  | (UAscii 46, r) => hfs_needle_git r needle
+  | (UAscii c, r) => (c =? 46) && hfs_needle_git r needle
   | _ => false
   end.
 
+(* what the guards of the theorems need: is_hfs_dot_generic gets past its first
+   test (the first non-ignored character is '.'), and the name is well-formed
+   UTF-8 whenever it does *)
+Definition git_hfs_head (name : bytes) : bool :=
+  match next_hfs (S (List.length name)) name with
+  | (UAscii c, _) => c =? 46
+  | _ => false
+  end.
+Definition utf8_guard (name : bytes) : bool := wf_utf8 name || negb (git_hfs_head name).
+
+(* ------------------------------------------------------------------ path.c *)
 (* is_ntfs_dotgit: ".git" or "git~1", then spaces / periods up to the end, a
    directory separator (either kind) or ':' *)
 Fixpoint ntfs_tail (s : bytes) : bool :=
@@ -169,14 +222,83 @@ Fixpoint ntfs_tail (s : bytes) : bool :=
   | c :: r => if (c =? 47) || (c =? 92) || (c =? 58) then true
               else if (c =? 46) || (c =? 32) then ntfs_tail r else false
   end.
+(* c = *(name++); if (c == '.') { g/G, i/I, t/T or return 0 } else if (c == 'g' || c == 'G')
+   { i/I, t/T, '~', '1' or return 0 } else return 0; then the tail loop *)
+Definition is_ch (c lo : N) : bool := (c =? lo) || (c =? lo - 32).
 Definition git_is_ntfs_dotgit (p : bytes) : bool :=
   match p with
-  | 46 :: g :: i :: t :: r =>
-    (lower g =? 103) && (lower i =? 105) && (lower t =? 116) && ntfs_tail r
-  | g :: i :: t :: 126 :: 49 :: r =>
-    (lower g =? 103) && (lower i =? 105) && (lower t =? 116) && ntfs_tail r
-  | _ => false
+  | [] => false
+  | c :: p1 =>
+    if c =? 46 then
+      match p1 with
+      | g :: i :: t :: r => if negb (is_ch g 103) || negb (is_ch i 105) || negb (is_ch t 116) then false else ntfs_tail r
+      | _ => false
+      end
+    else if is_ch c 103 then
+      match p1 with
+      | i :: t :: d :: e :: r =>
+        if negb (is_ch i 105) || negb (is_ch t 116) || negb (d =? 126) || negb (e =? 49) then false else ntfs_tail r
+      | _ => false
+      end
+    else false
   end.
+
+(* is_ntfs_dot_generic(name, dotgit_name, len, dotgit_ntfs_shortname_prefix),
+   transcribed over a NUL-terminated C string: name[i] = chr name i *)
+Definition chr (s : bytes) (i : nat) : N := nth i s 0.
+
+(* !strncasecmp(a + ia, b + ib, n) *)
+Fixpoint strncase_eq (n : nat) (a : bytes) (ia : nat) (b : bytes) (ib : nat) : bool :=
+  match n with
+  | O => true
+  | S n' =>
+    let x := c_tolower (chr a ia) in
+    let y := c_tolower (chr b ib) in
+    if negb (x =? y) then false
+    else if x =? 0 then true
+    else strncase_eq n' a (S ia) b (S ib)
+  end.
+
+(* only_spaces_and_periods: for (;;) { c = name[i++]; if (!c || c == ':') return 1;
+   if (c != ' ' && c != '.') return 0; } *)
+Fixpoint only_sp_git (fuel : nat) (name : bytes) (i : nat) : bool :=
+  match fuel with
+  | O => false
+  | S f =>
+    let c := chr name i in
+    if (c =? 0) || (c =? 58) then true
+    else if negb (c =? 32) && negb (c =? 46) then false
+    else only_sp_git f name (S i)
+  end.
+
+(* the fall-back short-name loop: for (i = 0, saw_tilde = 0; i < 8; i++) ...;
+   goto only_spaces_and_periods *)
+Fixpoint short_loop_git (fuel : nat) (name short : bytes) (i : nat) (saw_tilde : bool) : bool :=
+  match fuel with
+  | O => false
+  | S f =>
+    if Nat.leb 8 i then only_sp_git (S (List.length name)) name i
+    else
+      let c := chr name i in
+      if c =? 0 then false
+      else if saw_tilde then
+        (if (c <? 48) || (57 <? c) then false else short_loop_git f name short (S i) true)
+      else if c =? 126 then
+        (let d := chr name (S i) in                     (* name[++i] *)
+         if (d <? 49) || (57 <? d) then false else short_loop_git f name short (S (S i)) true)
+      else if Nat.leb 6 i then false
+      else if negb (N.land c 128 =? 0) then false
+      else if negb (c_tolower c =? chr short i) then false
+      else short_loop_git f name short (S i) false
+  end.
+
+Definition git_is_ntfs_dot_generic (name dotgit short : bytes) : bool :=
+  let len := List.length dotgit in
+  if (chr name 0 =? 46) && strncase_eq len name 1 dotgit 0 then
+    only_sp_git (S (List.length name)) name (len + 1)
+  else if strncase_eq 6 name 0 dotgit 0 && (chr name 6 =? 126) && (49 <=? chr name 7) && (chr name 7 <=? 52) then
+    only_sp_git (S (List.length name)) name 8
+  else short_loop_git 9 name short 0 false.
 
 (* the suffixes that follow each backslash *)
 Fixpoint after_backslashes (s : bytes) : list bytes :=
@@ -188,9 +310,12 @@ Fixpoint after_backslashes (s : bytes) : list bytes :=
 Definition git_has_dotgit (name : bytes) : bool :=
   git_is_hfs_dot name N_git || git_is_ntfs_dotgit name || existsb git_is_ntfs_dotgit (after_backslashes name).
 
+(* is_hfs_dotgitmodules || is_ntfs_dotgitmodules, the latter also on every
+   suffix that follows a backslash *)
+Definition git_is_ntfs_dotgitmodules (name : bytes) : bool := git_is_ntfs_dot_generic name N_gitmodules S_gi7eba.
 Definition git_is_dotgitmodules (name : bytes) : bool :=
-  git_is_hfs_dot name N_gitmodules || is_ntfs_dot name N_gitmodules S_gi7eba ||
-  existsb (fun s => is_ntfs_dot s N_gitmodules S_gi7eba) (after_backslashes name).
+  git_is_hfs_dot name N_gitmodules || git_is_ntfs_dotgitmodules name ||
+  existsb git_is_ntfs_dotgitmodules (after_backslashes name).
 
 (* ------------------------------------------------------------------ verify_ordered *)
 Inductive ord := Ordered | Unordered | HasDups.
